@@ -9,8 +9,8 @@ package gmtls
 //
 //verif:property C15
 //verif:expect-reach end handshake-phase data-phase
-//verif:bound connection without record protection; during the handshake (awaiting a handshake message or the ChangeCipherSpec) and after it (application read, server role); one inbound record with symbolic type byte, symbolic 16-bit version (the negotiated version known or not yet), payload of 1..2 symbolic bytes, optionally preceded by the first two bytes of a handshake message; length field = payload length or 0x4801 (above the maximum)
-//verif:outside record protection (C07); renegotiation-enabled clients; warning alerts (dropped and the next record read)
+//verif:bound connection without record protection; during the handshake (awaiting a handshake message or the ChangeCipherSpec) and after it (application read); client and server role, each renegotiation policy; one inbound record with symbolic type byte, symbolic 16-bit version (the negotiated version known or not yet), payload of 1..2 symbolic bytes, optionally preceded by the first two bytes of a handshake message; length field = payload length or 0x4801 (above the maximum)
+//verif:outside record protection (C07); the renegotiation handshake itself; warning alerts (dropped and the next record read)
 //verif:unwind 200
 func zzH_c15_record_wrong_moment() {
 	typ := vU8("type")
@@ -29,7 +29,11 @@ func zzH_c15_record_wrong_moment() {
 	phase := vChoice("phase", 3) // 0 awaiting a handshake message, 1 awaiting ChangeCipherSpec, 2 application data
 	pending := phase == 1 && vChoice("pendingHandshakeBytes", 2) == 1
 	w := &zzWire{in: rec}
-	c := &Conn{conn: w, vers: VersionGMSSL, haveVers: haveVers, config: &Config{}}
+	// role and renegotiation policy: a client that allows renegotiation lets handshake records
+	// through where application data is awaited - nowhere else
+	isClient := vBool("isClient")
+	reneg := RenegotiationSupport(vInt("renegotiation", 0, 2))
+	c := &Conn{conn: w, vers: VersionGMSSL, haveVers: haveVers, isClient: isClient, config: &Config{Renegotiation: reneg}}
 	c.in.version, c.out.version = VersionGMSSL, VersionGMSSL
 	if pending {
 		c.hand.Write([]byte{typeFinished, 0})
@@ -79,8 +83,9 @@ func zzH_c15_record_wrong_moment() {
 			vAssert("cipher-switched-iff-accepted", (c.in.nextCipher == nil) == good)
 		}
 		if rt != recordTypeChangeCipherSpec {
-			vAssert("other-record-while-awaiting-change-cipher-spec-is-an-error-unless-handshake", err != nil || rt == recordTypeHandshake)
+			vAssert("other-record-while-awaiting-change-cipher-spec-is-an-error", err != nil)
 		}
+		vAssert("no-error-means-the-cipher-was-switched", err != nil || c.in.nextCipher == nil)
 	default:
 		vAssert("after-handshake-only-application-data-is-delivered", (err == nil && delivered == L) == (rt == recordTypeApplicationData))
 		if rt != recordTypeApplicationData {
